@@ -542,8 +542,17 @@ impl Mp4Track {
                         return Ok((base_start_time + start_offset, duration));
                     }
                 }
+                // Default durations: the run starts at the fragment's base decode time, so count
+                // the samples before this one in the run, not in the whole track.
+                let start_offset = sample_idx as u64 * default_sample_duration as u64;
+                return base_start_time
+                    .checked_add(start_offset)
+                    .map(|start_time| (start_time, default_sample_duration))
+                    .ok_or(Error::InvalidData(
+                        "attempt to calculate sample start time with overflow",
+                    ));
             }
-            let start_offset = ((sample_id - 1) * default_sample_duration) as u64;
+            let start_offset = (sample_id as u64).saturating_sub(1) * default_sample_duration as u64;
             Ok((base_start_time + start_offset, default_sample_duration))
         } else {
             let stts = &self.trak.mdia.minf.stbl.stts;
